@@ -77,6 +77,13 @@ class C02(C01):
             progs.append(dict(ops=[("symlink", nb, b"t", Opts()), ("finish",)])); metas.append(dict(k="len", what="name", L=len(nb)))
             progs.append(dict(ops=[("extra", nb, Opts()), ("endextra",), ("write", b"x"), ("finish",)])); metas.append(dict(k="len", what="name", L=len(nb)))
             progs.append(dict(ops=[("aligned", nb, Opts(), 64), ("write", b"x"), ("finish",)])); metas.append(dict(k="len", what="name", L=len(nb)))
+        # raw copies of entries whose declared sizes lie on different sides of the 32-bit limit (the source declares an
+        # uncompressed size beyond 4 GiB over a tiny payload: a raw copy never decodes it): the copy's local header must
+        # carry the ZIP64 block and agree with its central record
+        for us, nm in (((1 << 32) + 16, None), ((1 << 32) - 1, None), (1 << 32, b"renamed"), ((1 << 40) + 5, b"r2")):
+            src = genzip.build([genzip.Entry(b"before", b"b"), genzip.Entry(b"big", b"tiny tiny tiny", method=8, usize=us)])[0]
+            progs.append(dict(ops=[("file", b"first", Opts()), ("write", b"1"), ("rawcopy", src, 1, nm), ("rawcopy", src, 0, None), ("file", b"last", Opts(method=8)), ("write", b"z" * 50), ("finish",)]))
+            metas.append(dict(k="rawlie"))
         import struct
         for L in (65531, 65511, 65512, 65515, 65516, 65520):
             for large in (False, True):
@@ -104,6 +111,14 @@ class C02(C01):
                     return None
             elif not fin_ok:
                 return "a representable %s length (%d) was rejected: %s" % (meta["what"], meta["L"], fin)
+        if meta["k"] == "rawlie":
+            if not fin_ok:
+                return "raw copy of an entry with a declared size beyond 4 GiB failed: %s" % (fin,)
+            listing, problems = strictzip.validate(data, None, None)
+            problems = [q for q in problems if "decoded length" not in q and "decoded data has CRC" not in q and "does not decode" not in q]
+            if problems:
+                return "finish() succeeded but the strict validator rejects the structure of the archive: " + "; ".join(problems[:3])
+            return None
         if not fin_ok:
             return None
         listing, problems = strictzip.validate(data, None, None)
